@@ -654,7 +654,7 @@ func runC20(t *mon.T, raw json.RawMessage) {
 
 func genC20(g *mon.G) {
 	targets := []string{"path-v1", "path-v2", "path-v2-opts", "stream", "stream-opts", "stream-writerat-v2", "stream-failing", "stream-writerat-default", "path-v2-first-header-fails", "stream-v2-refused"}
-	depth := g.Pick(3, 5) // histories up to length 1+depth
+	depth := g.Pick(3, 4) // histories up to length 1+depth (the alphabet has 11 operations)
 	for _, tg := range targets {
 		for _, op := range c20Ops {
 			g.Emit(c20Desc{Target: tg, Prefix: []string{op}, Depth: depth})
@@ -675,7 +675,7 @@ func init() {
 	Register(&mon.Check{
 		ID:          "C20",
 		Level:       "exploration",
-		Rule:        "EXHAUSTIVE: all op strings of length ≤ 4 (quick) / ≤ 6 (thorough) over {OnPut(once), OnPut(always), Has(k1), Has(k2), Put(k1), Put(k2), Put(identity), Close} x 10 targets (a plain stream asked for a CARv2, which a direct writer refuses: every Put fails, nothing reaches the stream, closed means closed; a path whose first header write fails and which is started over by the next Put, a stream that is an io.WriterAt with default options, path CARv1, path CARv2, path CARv2 with paddings/codec/identity options, stream, stream with options, a stream that is an io.WriterAt with WriteAsCarV1(false), a stream that breaks after 20/59/70/110 bytes: callbacks still once per Put, and after the first Close, whatever it returned, every call reports closed), plus random strings of length 5-30, plus scenarios of 2-4 overlapping Puts from separate goroutines with 2-4 callbacks (counts, per-Put order, output equal to a direct writer for some order of the puts); after EVERY step: no write on the stream / no file before the first Put, then output bytes equal to a directly constructed storage.NewWritable fed the same puts, callback log equal to the model's (registration order, once-callbacks exactly once), closed-error after Close. A case = all strings sharing a first op; counters.histories counts individual strings",
+		Rule:        "EXHAUSTIVE: all op strings of length ≤ 4 (quick) / ≤ 5 (thorough) over {OnPut(once), OnPut(always), OnPut(a callback that registers another), Has(k1), Has(k2), Put(k1), Put(k2), Put(identity), Put(a key that is no CID), Put(k2 under a cancelled context), Close} x 10 targets (a plain stream asked for a CARv2, which a direct writer refuses: every Put fails, nothing reaches the stream, closed means closed; a path whose first header write fails and which is started over by the next Put, a stream that is an io.WriterAt with default options, path CARv1, path CARv2, path CARv2 with paddings/codec/identity options, stream, stream with options, a stream that is an io.WriterAt with WriteAsCarV1(false), a stream that breaks after 20/59/70/110 bytes: callbacks still once per Put, and after the first Close, whatever it returned, every call reports closed), plus random strings of length 5-30, plus scenarios of 2-4 overlapping Puts from separate goroutines with 2-4 callbacks (counts, per-Put order, output equal to a direct writer for some order of the puts); after EVERY step: no write on the stream / no file before the first Put, then output bytes equal to a directly constructed storage.NewWritable fed the same puts, callback log equal to the model's (registration order, once-callbacks exactly once), closed-error after Close. A case = all strings sharing a first op; counters.histories counts individual strings",
 		Assumptions: []string{"the direct writer itself is judged by C01/C05; here only equality with it", "callbacks are registered from the same goroutine (OnPut is registration, not a concurrent operation)"},
 		Gen:         genC20,
 		Run:         runC20,
